@@ -310,7 +310,8 @@ def null_terminated(ctx, fi, paths, rule="C08.R2"):
             rd = [x for x in found[0][2:] if x[0] == "read"][0]
             new = [e for e in p.events if e.kind == "NEWSTREAM"]
             data = new[0]["args"][0] if new and new[0]["args"] else None
-            has_term = data is not None and N.contains(data, rd)
+            # the unit just read, or -- equal to it under the guard `read == term` -- the terminator itself, appended at the end of the data
+            has_term = data is not None and (N.contains(data, rd) or (data[0] in ("concat", "uconcat") and data[-1] == term))
             i = inc in g
             ctx.ob(rule, fi, (inc in g or N.mk_not(inc) in g) and has_term == i, "the terminator is part of the region data exactly when include is set (include=%s, in data=%s)" % (i, has_term), key="NT include=%s" % i)
             seeks = [e for e in p.events if e.kind == "SEEK" and e["stream"] == STREAM]
